@@ -164,8 +164,10 @@ func (fr *Frame) exec(ins ssa.Instruction, st *State, rch Term) {
 		fr.vals[x] = fr.makeMap(x, st)
 	case *ssa.MapUpdate:
 		fr.mapUpdate(x, st, rch)
-	case *ssa.Range, *ssa.Next:
-		unsup("range over map/string")
+	case *ssa.Range:
+		fr.vals[x] = fr.mapRange(x, st)
+	case *ssa.Next:
+		fr.vals[x] = fr.mapNext(x, st, rch)
 	case *ssa.RunDefers:
 		return
 	case *ssa.Defer, *ssa.Go, *ssa.Select, *ssa.Send:
